@@ -28,6 +28,16 @@ PROPS = {
               "the round trip (C05_roundtrip) is over Coq's reals with the standard sqrt; the action/orthonormality/composition theorems hold over any field with decidable equality",
               "a Basis3 is modelled by its matrix (the struct has that single private field)"],
              trusted=["rustc monomorphisation of the generic code at Xq"]),
+    "C08": P(8, assumptions=["model (coq/Model/Transform.v) is hand-written; tied to /repo by the exact-arithmetic correspondence of this run",
+              "Decomposed theorems are stated for valid rotations (unit quaternions, orthonormal bases), proved to satisfy RotLaws3/RotLaws2",
+              "matrix Transform laws are stated for affine matrices (the documented domain of Transform); Matrix3 as a 3-D transform: all matrices",
+              "ulps_eq!(scale, 0) is an oracle (Approx); the thresholds |scale| > 1e-6 => Some and scale = 0 => None are exercised at Xq (binary64 parameters) and hold for any ulps_eq with ulps_eq 0 0 = true and not ulps_eq s 0 for |s| > 1e-6"],
+             trusted=["rustc monomorphisation of the generic code at Xq"]),
+    "C10": P(10, axioms=R_AXIOMS, assumptions=["model (coq/Model/Projection.v) is hand-written; tied to /repo by the exact-arithmetic correspondence of this run",
+              "tan is an oracle (exact rational tangents of lattice angles in the correspondence; the real tan in the R theorems)",
+              "abs_diff_ne!: the scalar's abs_diff_eq with default epsilon, specified by ApproxSpecR (|a-b| <= eps); for Xq eps = 2^-52",
+              "planar with fovy = 0 divides by zero in exact arithmetic (IEEE infinity in floats): float-only limit case, not claimed"],
+             trusted=["rustc monomorphisation of the generic code at Xq"]),
     "C12": P(12, assumptions=["model (coq/Model/Point.v) is hand-written; tied to /repo by the exact-arithmetic correspondence of this run",
               "integer scalar types: only no-overflow inputs", "centroid of the empty list divides by cast(0): outside the property (non-empty lists)"],
              trusted=["rustc monomorphisation of the generic code at Xq and i32"]),
